@@ -46,6 +46,14 @@ def cases(tier: str, seed: int) -> List[Dict[str, Any]]:
     # histories: several formats used in sequence in one process (no state may leak between them)
     for seq in ([[4, 3], [5, 2], [4, 3]], [[2, 1], [8, 23], [2, 1], [5, 10]], [[8, 0], [3, 4], [8, 7], [3, 4]]):
         out.append({"kind": "history", "E": seq[0][0], "M": seq[0][1], "seq": seq, "seed": seed, "fresh": True})
+    # object histories: ONE format object whose fields are reassigned after it has been used (FPFormat is a
+    # plain mutable dataclass), also through copy.copy / dataclasses.replace; results must follow the current fields
+    for seq in ([[4, 3], [5, 3], [5, 2], [2, 1], [4, 3]], [[2, 1], [3, 4], [8, 7], [5, 10]], [[5, 2], [4, 2], [4, 3]]):
+        for how in ("assign", "copy_assign", "replace"):
+            out.append({"kind": "mutate", "E": seq[0][0], "M": seq[0][1], "seq": seq, "how": how, "seed": seed})
+    # results never alias the argument, an earlier result, or a per-format buffer
+    for E, M in ([4, 3], [5, 2], [2, 1], [8, 7]):
+        out.append({"kind": "alias", "E": E, "M": M, "seed": seed})
     nblk = 256
     for E, M in ([4, 3], [5, 2]):
         for b in range(nblk):
@@ -159,6 +167,56 @@ def run_case(case: Dict[str, Any]) -> Dict[str, Any]:
             viol.append({"key": "props|bits", "msg": f"E{E}M{M}: {fmt.bits}"})
         return {"violations": viol, "steps": 4, "n_states": 1, "outcome": "props"}
 
+    if kind == "mutate":
+        import copy
+        import dataclasses
+
+        viol = []
+        n = 0
+        f_ = FPFormat(E, M, rounding="nearest")
+        for pos, (e_, m_) in enumerate(case["seq"]):
+            if pos > 0:
+                if case["how"] == "assign":
+                    f_.exponent_bits, f_.mantissa_bits = e_, m_
+                elif case["how"] == "copy_assign":
+                    f_ = copy.copy(f_)
+                    f_.exponent_bits, f_.mantissa_bits = e_, m_
+                else:
+                    f_ = dataclasses.replace(f_, exponent_bits=e_, mantissa_bits=m_)
+            want = {"max_absolute_value": fp.max_value(e_, m_), "min_absolute_normal": fp.min_normal(e_),
+                    "min_absolute_subnormal": fp.min_subnormal(e_, m_)}
+            for k, w in want.items():
+                if float(getattr(f_, k)) != w:
+                    viol.append({"key": f"mutate|{case['how']}|props|{k}", "msg": f"after {case['seq'][:pos + 1]}: {getattr(f_, k)!r} != {w!r}"})
+            x = _struct_inputs(e_, m_, 6, case["seed"])
+            x = torch.cat([x, torch.tensor([1e30, -1e30, 3e5, -3e5, 1e-30])])
+            q = f_.quantise(x)
+            n += x.numel()
+            for v in _check(x, q, e_, m_, f"mutate|{case['how']}|pos{pos}", f_, full=False):
+                viol.append(v)
+            if viol:
+                break
+        return {"violations": viol[:4], "steps": n, "n_states": n, "nontrivial": True, "outcome": "mutate"}
+    if kind == "alias":
+        viol = []
+        g = torch.Generator().manual_seed(5)
+        for shape in ((7,), (3, 5), ()):
+            a = torch.randn(shape, generator=g)
+            b = torch.randn(shape, generator=g) * 300
+            q1 = fmt.quantise(a)
+            keep = q1.clone()
+            q2 = fmt.quantise(b)
+            q3 = FPFormat(E, M, rounding="nearest").quantise(b * 0.5)
+            if not torch.equal(q1, keep):
+                viol.append({"key": "alias|earlier_result_overwritten", "msg": f"E{E}M{M} shape={shape}: quantise(a) changed after quantise(b) on the same format object"})
+            ptrs = [t.untyped_storage().data_ptr() for t in (a, b, q1, q2, q3)]
+            if len(set(ptrs)) != len(ptrs):
+                viol.append({"key": "alias|result_shares_storage", "msg": f"E{E}M{M} shape={shape}: storages {ptrs}"})
+            # a representable input is returned by value, not by reference
+            r = fmt.quantise(q1)
+            if r.untyped_storage().data_ptr() == q1.untyped_storage().data_ptr():
+                viol.append({"key": "alias|returns_its_argument", "msg": f"E{E}M{M} shape={shape}"})
+        return {"violations": viol[:3], "steps": 9, "n_states": 9, "nontrivial": True, "outcome": "alias"}
     if kind == "history":
         viol = []
         n = 0
